@@ -69,7 +69,7 @@ pub fn fork(Tracked(k): Tracked<&mut Kernel>) -> (r: Result<ForkResult, VxErrno>
     ensures final(k).fds == old(k).fds && final(k).cloexec == old(k).cloexec && final(k).next_id == old(k).next_id && final(k).tty_pgrp == old(k).tty_pgrp && final(k).pgrp == old(k).pgrp,
         match r {
             Ok(ForkResult::Child) => final(k).child && final(k).forks == old(k).forks && final(k).self_pid > 0,
-            Ok(ForkResult::Parent { child }) => !final(k).child && child > 0 && final(k).forks == old(k).forks.push(child as int) && final(k).self_pid == old(k).self_pid,
+            Ok(ForkResult::Parent { child }) => !final(k).child && child > 0 && child as int != old(k).self_pid && final(k).forks == old(k).forks.push(child as int) && final(k).self_pid == old(k).self_pid,
             Err(_) => !final(k).child && final(k).forks == old(k).forks && final(k).self_pid == old(k).self_pid,
         }
 { unimplemented!() }
@@ -150,12 +150,17 @@ pub fn try_run_builtin(sh: &mut Shell, cl: &CommandLine, idx_cmd: usize, capture
 pub fn tokens_to_line(tokens: &Tokens) -> (r: String) { unimplemented!() }
 #[verifier::external_body]
 pub fn vx_reset_child_signals() { unimplemented!() }
+// libc::signal(SIGPIPE, SIG_IGN / SIG_DFL) around the here-string write: signal disposition, no descriptor effect
+#[verifier::external_body]
+pub fn vx_sigpipe(ignore: bool) { unimplemented!() }
+#[verifier::external_body]
+pub fn vx_push_nl(s: &mut String) { s.push('\n') }
 #[verifier::external_body]
 pub fn vx_getpid(Tracked(k): Tracked<&mut Kernel>) -> (r: i32) ensures r as int == old(k).self_pid, *final(k) == *old(k) { unimplemented!() }
 #[verifier::external_body]
 pub fn vx_setpgid(pid: i32, pgid: i32, Tracked(k): Tracked<&mut Kernel>)
     ensures final(k).fds == old(k).fds && final(k).cloexec == old(k).cloexec && final(k).child == old(k).child && final(k).forks == old(k).forks && final(k).next_id == old(k).next_id && final(k).tty_pgrp == old(k).tty_pgrp
-        && final(k).self_pid == old(k).self_pid && (pid == 0 ==> final(k).pgrp == pgid as int),
+        && final(k).self_pid == old(k).self_pid && (pid == 0 ==> final(k).pgrp == pgid as int) && (pid != 0 && pid as int != old(k).self_pid ==> final(k).pgrp == old(k).pgrp),
 { unimplemented!() }
 #[verifier::external_body]
 pub fn give_terminal_to(gid: i32, Tracked(k): Tracked<&mut Kernel>) -> (r: bool)
@@ -468,6 +473,12 @@ C = 'src/core.rs'
 
 RSP_RW = [
     Rw(r'unsafe \{[^{}]*?libc::signal\([^{}]*?\}', 'vx_reset_child_signals();', regex=True, rule='R8', why='libc::signal(SIGTSTP/SIGQUIT, SIG_DFL) in the child: shim, no descriptor effect'),
+    Rw('libc::signal(libc::SIGPIPE, libc::SIG_IGN);', 'vx_sigpipe(true);', required=False, rule='R8', why='signal disposition while the here-string is written: shim, no descriptor effect'),
+    Rw('libc::signal(libc::SIGPIPE, libc::SIG_DFL);', 'vx_sigpipe(false);', required=False, rule='R8'),
+    Rw("text.push('\\n');", 'vx_push_nl(&mut text);', required=False, rule='R12'),
+    Rw('text.as_bytes()', 'vx_as_bytes(&text)', required=False, rule='R12'),
+    Rw(r'Err\(ref e\) if e\.kind\(\) == std::io::ErrorKind::BrokenPipe => \{\}', '', regex=True, required=False, rule='R10', why='EPIPE arm of the here-string write: same (empty) effect as the general arm for the descriptor model'),
+    Rw('drop(f);', '', required=False, rule='R9', why='explicit drop of the File: modelled by R9 at the end of the enclosing block (same descriptor effect)'),
     Rw(r'if cfg!\(target_os = "macos"\) \{', '', regex=True, balanced=True, rule='R10', why='macOS-only busy wait on getpgid (cfg! is false on this platform): dropped'),
     Rw('let c_args: Vec<_> = cmd\\s*(?:/\\*@L\\d+\\*/)?\\s*\\.tokens\\s*(?:/\\*@L\\d+\\*/)?\\s*\\.iter\\(\\)\\s*(?:/\\*@L\\d+\\*/)?\\s*\\.map\\(\\|x\\| CString::new\\(x\\.1\\.as_str\\(\\)\\)\\.expect\\("CString error"\\)\\)\\s*(?:/\\*@L\\d+\\*/)?\\s*\\.collect\\(\\);', 'VXARGV_OK;', regex=True, required=False, rule='R12',
        why='argv idiom: cmd.tokens.iter().map(|x| CString::new(x.1.as_str())..).collect() has the std contract argv == token texts in order; any other construction is opaque'),
@@ -521,7 +532,9 @@ run_single_program = Fn(C, 'run_single_program', ret='r', pre_rewrites=RSP_RW, f
     ensures=[
         ('C08.rsp.still_the_shell', '!final(k).child && final(k).cloexec =~= Set::<int>::empty()'),
         ('C02.rsp.stage_forked_exactly_once',
-         '(final(k).forks == old(k).forks.push(r as int) && r > 0) || (final(k).forks == old(k).forks && (r == 0 || r == 1 || cl.commands@.len() == 1))'),
+         '(final(k).forks == old(k).forks.push(r as int) && r > 0) || (final(k).forks == old(k).forks && (r < 0 || spec_single_builtin(*cl)))'),
+        # C08: a stage that is not a lone builtin and could not be started is reported as such (negative), never as a process id
+        ('C08.rsp.failed_start_is_reported', '!spec_single_builtin(*cl) ==> (r > 0) == (final(k).forks.len() > old(k).forks.len())'),
         ('C08.rsp.shell_table_after_started_stage', '!spec_single_builtin(*cl) && final(k).forks != old(k).forks ==> ' + 'if (idx_cmd as int) < pipes@.len() { layout(final(k).fds, pipes@, idx_cmd + 1, w, *fds_capture_stdout, *fds_capture_stderr) } else { std3(final(k).fds) }'),
         ('C08.rsp.shell_table_after_failed_start', '!spec_single_builtin(*cl) && final(k).forks == old(k).forks ==> ' + 'if (idx_cmd as int) < pipes@.len() { layout(final(k).fds, pipes@, idx_cmd + 1, w, *fds_capture_stdout, *fds_capture_stderr) } else { std3(final(k).fds) }'),
         ('C08.rsp.shell_table_after_single_builtin', 'spec_single_builtin(*cl) ==> std3(final(k).fds)'),
@@ -607,6 +620,8 @@ run_pipeline = Fn(C, 'run_pipeline', ret='r',
              '&& (!(capture && !spec_single_builtin(*cl)) ==> fds_capture_stdout.is_none() && fds_capture_stderr.is_none()) '
              '&& (if __I < length { layout(k.fds, pipes@, __I as int, mk_wiring(base_id, pipes@.len() as int, 0), fds_capture_stdout, fds_capture_stderr) } else { std3(k.fds) })'),
             ('C02.inv.pipeline.forks', 'old(k).forks.len() <= k.forks.len() <= old(k).forks.len() + __I'),
+            # C08: the flag is set exactly when a stage (of a pipeline that is not a lone builtin) was not started
+            ('C08.inv.pipeline.start_failed_iff_a_stage_was_not_forked', 'k.forks.len() <= __forks0 + __I && (!spec_single_builtin(*cl) ==> (start_failed <==> k.forks.len() < __forks0 + __I))'),
             ('C07.inv.pipeline.tty', 'k.pgrp == old(k).pgrp && (options.isatty ==> tty) && options.background == cl.background '
                                      '&& (k.tty_pgrp != old(k).tty_pgrp ==> term_given && !cl.background && tty && k.tty_pgrp > 0) && (__I == 0 ==> k.tty_pgrp == old(k).tty_pgrp) && (spec_single_builtin(*cl) ==> k.tty_pgrp == old(k).tty_pgrp)'),
         ]),
@@ -631,6 +646,14 @@ run_pipeline = Fn(C, 'run_pipeline', ret='r',
         'hdr:for i in 0..length|body-entry': 'lemma_mk_wiring(base_id, pipes@.len() as int, k.next_id); '
             'lemma_layout_hs(k.fds, pipes@, __I as int, mk_wiring(base_id, pipes@.len() as int, k.next_id), mk_wiring(base_id, pipes@.len() as int, 0), fds_capture_stdout, fds_capture_stderr);',
         'before-call:run_single_program': 'RAW: let ghost nid = k.next_id;',
+        'before-text:let mut start_failed = false;': 'RAW: let ghost __forks0 = k.forks.len(); let ghost mut __wst: Option<int> = None;',
+        'after-call:wait_fg_job': '__wst = Some(_cr.status as int);',
+        # C02 / C03: the status of a pipeline that was waited for is the one the wait reports, captured or not
+        'before-text:if start_failed && cmd_result.status == 0': 'LABEL:C02+C03+C11.pipeline.status_is_the_one_the_wait_reported_also_when_captured: '
+            'assert(__wst.is_some() ==> cmd_result.status as int == __wst.unwrap());',
+        # C08: descriptor exhaustion makes the pipeline fail with a non-zero status
+        'before-text:(term_given, cmd_result)': 'LABEL:C08.pipeline.a_stage_that_could_not_be_started_gives_a_nonzero_status: '
+            'assert(!spec_single_builtin(*cl) && k.forks.len() < __forks0 + length ==> cmd_result.status != 0);',
         'after-call:run_single_program': 'lemma_layout_hs(k.fds, pipes@, i + 1, mk_wiring(base_id, pipes@.len() as int, nid), mk_wiring(base_id, pipes@.len() as int, 0), fds_capture_stdout, fds_capture_stderr);',
     },
 )
